@@ -250,89 +250,212 @@ Qed.
 
 Definition fire_of (s : st) (e : entry) : event := EvFire (e_tid e) (e_when e) (e_seq e) (now s).
 
-Lemma process_task_cases : forall jit c s e s2 ev r, process_task jit c s e = (s2, ev, r) ->
-  let s1 := set_dq s (dq s ++ t_defers (cfg_get c (e_tid e))) in
-  ev = [fire_of s e] /\
-  (s2 = s1 \/
-   exists iv off, t_kind (cfg_get c (e_tid e)) = Recurring iv off /\ 0 < iv /\ r = false /\
-     tm_install (set_ttime s1 (upd (ttime s1) (e_tid e) (Some (next_slot jit iv off (now s))))) (e_tid e) = Ok s2).
-Proof.
-  intros jit c s e s2 ev r H. unfold process_task in H.
-  destruct (t_raises (cfg_get c (e_tid e))); [inversion H; subst; split; [reflexivity | left; reflexivity]|].
-  destruct (t_kind (cfg_get c (e_tid e))) as [|iv off] eqn:K; [inversion H; subst; split; [reflexivity | left; reflexivity]|].
-  unfold rec_install in H. destruct (iv <=? 0) eqn:E; [inversion H; subst; split; [reflexivity | left; reflexivity]|].
-  match type of H with context [tm_install ?a ?b] => destruct (tm_install a b) as [s3|] eqn:T end;
-    inversion H; subst; (split; [reflexivity|]); [right | left; reflexivity].
-  exists iv, off. repeat split; try reflexivity; [lia | exact T].
-Qed.
-
-Lemma process_task_inv : forall jit c s e s2 ev r, Inv s -> process_task jit c s e = (s2, ev, r) -> Inv s2.
-Proof.
-  intros jit c s e s2 ev r Hi H. destruct (process_task_cases _ _ _ _ _ _ _ H) as [_ [->|[iv [off [_ [_ [_ T]]]]]]].
-  - apply Inv_set_dq, Hi.
-  - eapply tm_install_facts in T; [|apply InvBut_set_time, Inv_set_dq, Hi].
-    destruct T as [t [s1 [_ [_ [HI _]]]]]. exact HI.
-Qed.
-
-(* ---------- generic preservation by the loops and by histories ---------- *)
-Definition is_fire (x : event) : bool := match x with EvFire _ _ _ _ => true | _ => false end.
+(* events that trace invariants look at: firings and the two ghost records *)
+Definition is_fire (x : event) : bool :=
+  match x with EvFire _ _ _ _ | EvPop _ _ | EvInst _ _ => true | _ => false end.
 Definition noise (ev : list event) : Prop := forall x, In x ev -> is_fire x = false.
-
-Lemma noise_calls : forall l, noise (calls l).
-Proof.
-  intros l x Hx. unfold calls in Hx. apply in_flat_map in Hx. destruct Hx as [d [_ Hx]].
-  destruct Hx as [<-|Hx]; [reflexivity|]. destruct (d_raises d); [|contradiction].
-  destruct Hx as [<-|[]]. reflexivity.
-Qed.
 
 Lemma noise_app : forall a b, noise a -> noise b -> noise (a ++ b).
 Proof. intros a b Ha Hb x Hx. apply in_app_or in Hx. destruct Hx; [apply Ha | apply Hb]; assumption. Qed.
+Lemma noise1 : forall x, is_fire x = false -> noise [x].
+Proof. intros x Hx y [<-|[]]. exact Hx. Qed.
+Lemma noise_nil : noise [].
+Proof. intros x []. Qed.
 
-Lemma do_drain_shape : forall g s s' ev r, do_drain g s = (s', ev, r) ->
-  exists q, s' = set_dq s q /\ noise ev.
+(* shape of one scheduling action: a suspend, or an install through tm_install after the task's
+   time was (possibly) set *)
+Lemma do_act_cases : forall jit c s a s' ev, do_act jit c s a = Ok (s', ev) ->
+  (exists i, s' = tm_suspend s i /\ ev = []) \/
+  (exists i f, (f = ttime s \/ exists t, f = upd (ttime s) i (Some t)) /\
+     tm_install (set_ttime s f) i = Ok s' /\ ev = [EvInst i false]).
 Proof.
-  intros g s s' ev r H. unfold do_drain in H.
-  destruct (drain_all g (dq s)) as [[c q] x]. inversion H; subst. exists q. split; [reflexivity|].
-  apply noise_app; [apply noise_calls|]. destruct x; intros y Hy; try contradiction.
-  destruct Hy as [<-|[]]. reflexivity.
+  intros jit c s a s' ev H. destruct a as [i t|i d|i|i|i]; cbn [do_act] in H.
+  - unfold do_install_when in H. destruct (t_kind (cfg_get c i)); [|discriminate].
+    match type of H with context [tm_install ?x ?y] => destruct (tm_install x y) as [s2|] eqn:T end; [|discriminate].
+    inversion H; subst. right. exists i, (upd (ttime s) i (Some t)). split; [right; eexists; reflexivity|]. split; [exact T | reflexivity].
+  - unfold do_install_when in H. destruct (t_kind (cfg_get c i)); [|discriminate].
+    match type of H with context [tm_install ?x ?y] => destruct (tm_install x y) as [s2|] eqn:T end; [|discriminate].
+    inversion H; subst. right. exists i, (upd (ttime s) i (Some (now s + d))). split; [right; eexists; reflexivity|]. split; [exact T | reflexivity].
+  - unfold do_reinstall in H. destruct (t_kind (cfg_get c i)) as [|iv off].
+    + destruct (ttime s i); [|discriminate].
+      destruct (tm_install s i) as [s2|] eqn:T; [|discriminate]. inversion H; subst.
+      right. exists i, (ttime s). split; [left; reflexivity|]. rewrite set_ttime_id. split; [exact T | reflexivity].
+    + unfold rec_install in H. destruct (iv <=? 0); [discriminate|].
+      match type of H with context [tm_install ?x ?y] => destruct (tm_install x y) as [s2|] eqn:T end; [|discriminate].
+      inversion H; subst. right. eexists i, _. split; [right; eexists; reflexivity|]. split; [exact T | reflexivity].
+  - inversion H; subst. left. exists i. split; reflexivity.
+  - destruct (tm_install s i) as [s2|] eqn:T; [|discriminate]. inversion H; subst.
+    right. exists i, (ttime s). split; [left; reflexivity|]. rewrite set_ttime_id. split; [exact T | reflexivity].
 Qed.
 
+(* shape of process_task: the fire event, the callback's actions, then raise / re-install *)
+Lemma process_task_cases : forall jit c s e s2 ev r, process_task jit c s e = (s2, ev, r) ->
+  let k := cfg_get c (e_tid e) in
+  exists sa eva failed, run_acts jit c (set_dq s (dq s ++ t_defers k)) (t_acts k) = (sa, eva, failed) /\
+    ((s2 = sa /\ ev = fire_of s e :: eva) \/
+     exists iv off, t_kind k = Recurring iv off /\ 0 < iv /\ r = false /\ failed = false /\ t_raises k = false /\
+       tm_install (set_ttime sa (upd (ttime sa) (e_tid e) (Some (next_slot jit iv off (now sa))))) (e_tid e) = Ok s2 /\
+       ev = fire_of s e :: eva ++ [EvInst (e_tid e) true]).
+Proof.
+  intros jit c s e s2 ev r H k. unfold process_task in H. fold k in H.
+  destruct (run_acts jit c (set_dq s (dq s ++ t_defers k)) (t_acts k)) as [[sa eva] failed] eqn:RA.
+  exists sa, eva, failed. split; [reflexivity|].
+  destruct (failed || t_raises k) eqn:FR; [inversion H; subst; left; split; reflexivity|].
+  destruct (t_kind k) as [|iv off] eqn:K; [inversion H; subst; left; split; reflexivity|].
+  unfold rec_install in H. destruct (iv <=? 0) eqn:E; [inversion H; subst; left; split; reflexivity|].
+  match type of H with context [tm_install ?a ?b] => destruct (tm_install a b) as [s3|] eqn:T end;
+    inversion H; subst; [right | left; split; reflexivity].
+  apply orb_false_elim in FR. destruct FR as [-> Hr].
+  exists iv, off. repeat split; try reflexivity; try assumption. lia.
+Qed.
+
+(* ---------- generic preservation by callbacks, loops and histories ---------- *)
 Section Loops.
   Context (I : st -> list event -> Prop) (guard : bool) (jit : Z) (c : cfg).
-  Context (I_fire : forall s acc e s1 z s2 ev r, I s acc -> get_next_task s = (Some e, s1, z) ->
-             process_task jit c s1 e = (s2, ev, r) -> I s2 (acc ++ ev)).
+  Context (I_pop : forall s acc e s1 z, I s acc -> get_next_task s = (Some e, s1, z) ->
+             I s1 (acc ++ [EvPop e (heap s1); fire_of s1 e])).
   Context (I_dq : forall s acc q, I s acc -> I (set_dq s q) acc).
   Context (I_noise : forall s acc ev, I s acc -> noise ev -> I s (acc ++ ev)).
+  Context (I_suspend : forall s acc i, I s acc -> I (tm_suspend s i) acc).
+  Context (I_install : forall s acc i f s' auto, I s acc ->
+             (f = ttime s \/ exists t, f = upd (ttime s) i (Some t)) ->
+             tm_install (set_ttime s f) i = Ok s' -> I s' (acc ++ [EvInst i auto])).
+  Context (I_now : forall s acc t, I s acc -> I (set_now s t) acc).
 
-  Lemma I_pop : forall s acc t s1 z s2 ev r, I s acc -> get_next_task s = (t, s1, z) ->
-    match t with Some e => process_task jit c s1 e | None => (s1, [], false) end = (s2, ev, r) -> I s2 (acc ++ ev).
+  Lemma do_act_I : forall s acc a s' ev, I s acc -> do_act jit c s a = Ok (s', ev) -> I s' (acc ++ ev).
+  Proof.
+    intros s acc a s' ev Hi H. destruct (do_act_cases _ _ _ _ _ _ H) as [[i [-> ->]]|[i [f [Hf [T ->]]]]].
+    - rewrite app_nil_r. apply I_suspend, Hi.
+    - eapply I_install; eassumption.
+  Qed.
+
+  Lemma run_acts_I : forall l s acc s' ev x, I s acc -> run_acts jit c s l = (s', ev, x) -> I s' (acc ++ ev).
+  Proof.
+    induction l as [|a l IH]; intros s acc s' ev x Hi H; cbn [run_acts] in H.
+    - inversion H; subst. rewrite app_nil_r. exact Hi.
+    - destruct (do_act jit c s a) as [[s1 ev1]|] eqn:A.
+      + destruct (run_acts jit c s1 l) as [[s2 ev2] x2] eqn:R. inversion H; subst.
+        rewrite app_assoc. eapply IH; [|exact R]. eapply do_act_I; eassumption.
+      + inversion H; subst. rewrite app_nil_r. exact Hi.
+  Qed.
+
+  (* pop + process_task *)
+  Lemma fire_I : forall s acc e s1 z s2 ev r, I s acc -> get_next_task s = (Some e, s1, z) ->
+    process_task jit c s1 e = (s2, ev, r) -> I s2 (acc ++ pop_events s e s1 ++ ev).
+  Proof.
+    intros s acc e s1 z s2 ev r Hi G P. pose proof (I_pop _ _ _ _ _ Hi G) as H1.
+    destruct (process_task_cases _ _ _ _ _ _ _ P) as [sa [eva [failed [RA Hc]]]].
+    assert (Ha : I sa ((acc ++ [EvPop e (heap s1); fire_of s1 e]) ++ eva)).
+    { eapply run_acts_I; [|exact RA]. apply I_dq, H1. }
+    unfold pop_events.
+    destruct Hc as [[-> ->]|[iv [off [_ [_ [_ [_ [_ [T ->]]]]]]]]].
+    - rewrite <- app_assoc in Ha. exact Ha.
+    - replace (acc ++ [EvPop e (heap s1)] ++ fire_of s1 e :: eva ++ [EvInst (e_tid e) true])
+        with (((acc ++ [EvPop e (heap s1); fire_of s1 e]) ++ eva) ++ [EvInst (e_tid e) true])
+        by (rewrite <- !app_assoc; reflexivity).
+      eapply I_install; [exact Ha | right; eexists; reflexivity | exact T].
+  Qed.
+
+  Lemma call_batch_s_I : forall b s acc s' ev x, I s acc ->
+    call_batch_s guard jit c s b = (s', ev, x) -> I s' (acc ++ ev).
+  Proof.
+    induction b as [|d b IH]; intros s acc s' ev x Hi H; cbn [call_batch_s] in H.
+    - inversion H; subst. rewrite app_nil_r. exact Hi.
+    - destruct (run_acts jit c (set_dq s (dq s ++ d_spawns d)) (d_acts d)) as [[s2 ev2] failed] eqn:RA.
+      assert (H2 : I s2 (acc ++ EvCall (d_id d) :: ev2 ++ (if failed || d_raises d then [EvRaise] else []))).
+      { replace (acc ++ EvCall (d_id d) :: ev2 ++ (if failed || d_raises d then [EvRaise] else []))
+          with (((acc ++ [EvCall (d_id d)]) ++ ev2) ++ (if failed || d_raises d then [EvRaise] else []))
+          by (rewrite <- !app_assoc; reflexivity).
+        apply I_noise.
+        - eapply run_acts_I; [|exact RA]. apply I_dq. apply I_noise; [exact Hi | apply noise1; reflexivity].
+        - destruct (failed || d_raises d); [apply noise1; reflexivity | apply noise_nil]. }
+      destruct ((failed || d_raises d) && negb guard); [inversion H; subst; exact H2|].
+      destruct (call_batch_s guard jit c s2 b) as [[s3 ev3] x3] eqn:R. inversion H; subst.
+      change (I s' (acc ++ (EvCall (d_id d) :: ev2 ++ (if failed || d_raises d then [EvRaise] else [])) ++ ev3)).
+      rewrite app_assoc. eapply IH; [exact H2 | exact R].
+  Qed.
+
+  Lemma sdrain_I : forall fuel s acc s' ev x, I s acc -> sdrain guard jit c fuel s = (s', ev, x) -> I s' (acc ++ ev).
+  Proof.
+    induction fuel as [|f IH]; intros s acc s' ev x Hi H; cbn [sdrain] in H.
+    - destruct (dq s); inversion H; subst; [rewrite app_nil_r; exact Hi|].
+      apply I_noise; [exact Hi | apply noise1; reflexivity].
+    - destruct (dq s) as [|d0 q0] eqn:Q; [inversion H; subst; rewrite app_nil_r; exact Hi|].
+      destruct (call_batch_s guard jit c (set_dq s []) (d0 :: q0)) as [[s1 ev1] x1] eqn:B.
+      pose proof (call_batch_s_I _ _ _ _ _ _ (I_dq _ _ [] Hi) B) as H1.
+      destruct x1; [inversion H; subst; exact H1|].
+      destruct (sdrain guard jit c f s1) as [[s2 ev2] x2] eqn:R. inversion H; subst.
+      rewrite app_assoc. eapply IH; [exact H1 | exact R].
+  Qed.
+
+  Lemma do_drain_I : forall s acc s' ev x, I s acc -> do_drain guard jit c s = (s', ev, x) -> I s' (acc ++ ev).
+  Proof. intros s acc s' ev x Hi H. unfold do_drain in H. eapply sdrain_I; eassumption. Qed.
+
+  Lemma pop_I : forall s acc t s1 z s2 ev r, I s acc -> get_next_task s = (t, s1, z) ->
+    match t with
+    | Some e => let '(s2, ev, r) := process_task jit c s1 e in (s2, pop_events s e s1 ++ ev, r)
+    | None => (s1, [], false)
+    end = (s2, ev, r) -> I s2 (acc ++ ev).
   Proof.
     intros s acc [e|] s1 z s2 ev r Hi G P.
-    - eapply I_fire; eassumption.
+    - destruct (process_task jit c s1 e) as [[s2' ev'] r'] eqn:PT. inversion P; subst.
+      eapply fire_I; eassumption.
     - apply get_next_none in G. destruct G as [-> _]. inversion P; subst. rewrite app_nil_r. exact Hi.
   Qed.
 
-  Lemma noise1 : forall x, is_fire x = false -> noise [x].
-  Proof. intros x Hx y [<-|[]]. exact Hx. Qed.
+  Lemma once_cont : forall f,
+    (forall s acc s' ev, I s acc -> run_once_loop guard jit c f s = (s', ev) -> I s' (acc ++ ev)) ->
+    forall s2 acc ev1 (r1 z : bool) s' ev, I s2 (acc ++ ev1) ->
+    (if r1 then (s2, ev1 ++ [EvRaise])
+     else let '(s3, ev2, r2) := do_drain guard jit c s2 in
+          if r2 then (s3, ev1 ++ ev2)
+          else if z then let '(s4, ev3) := run_once_loop guard jit c f s3 in (s4, ev1 ++ ev2 ++ ev3)
+               else (s3, ev1 ++ ev2)) = (s', ev) -> I s' (acc ++ ev).
+  Proof.
+    intros f IH s2 acc ev1 r1 z s' ev H2 H. destruct r1.
+    - inversion H; subst. rewrite app_assoc. apply I_noise; [exact H2 | apply noise1; reflexivity].
+    - destruct (do_drain guard jit c s2) as [[s3 ev2] r2] eqn:D.
+      pose proof (do_drain_I _ _ _ _ _ H2 D) as H3. rewrite <- app_assoc in H3.
+      destruct r2; [inversion H; subst; exact H3|].
+      destruct z; [|inversion H; subst; exact H3].
+      destruct (run_once_loop guard jit c f s3) as [s4 ev3] eqn:R.
+      inversion H; subst. rewrite app_assoc in H3. specialize (IH _ _ _ _ H3 R).
+      rewrite <- !app_assoc in IH. exact IH.
+  Qed.
 
   Lemma run_once_loop_I : forall fuel s acc s' ev, I s acc ->
     run_once_loop guard jit c fuel s = (s', ev) -> I s' (acc ++ ev).
   Proof.
     induction fuel as [|f IH]; intros s acc s' ev Hi H; cbn [run_once_loop] in H.
     - inversion H; subst. apply I_noise; [exact Hi | apply noise1; reflexivity].
-    - destruct (get_next_task s) as [[t s1] z] eqn:G.
-      destruct (match t with Some e => process_task jit c s1 e | None => (s1, [], false) end) as [[s2 ev1] r1] eqn:P.
-      pose proof (I_pop _ _ _ _ _ _ _ _ Hi G P) as H2.
-      destruct r1.
-      + inversion H; subst. rewrite app_assoc. apply I_noise; [exact H2 | apply noise1; reflexivity].
-      + destruct (do_drain guard s2) as [[s3 ev2] r2] eqn:D.
-        destruct (do_drain_shape _ _ _ _ _ D) as [q [-> Hn]].
-        assert (H3 : I (set_dq s2 q) (acc ++ ev1 ++ ev2)).
-        { rewrite app_assoc. apply I_noise; [apply I_dq, H2 | exact Hn]. }
-        destruct r2; [inversion H; subst; exact H3|].
-        destruct z; [|inversion H; subst; exact H3].
-        destruct (run_once_loop guard jit c f (set_dq s2 q)) as [s4 ev3] eqn:R.
-        inversion H; subst. specialize (IH _ _ _ _ H3 R). rewrite <- !app_assoc in IH. exact IH.
+    - destruct (get_next_task s) as [[t s1] z] eqn:G. destruct t as [e|].
+      + destruct (process_task jit c s1 e) as [[s2 ev1] r1] eqn:P. cbv beta iota zeta in H.
+        eapply (once_cont f IH); [|exact H]. rewrite app_assoc. rewrite <- app_assoc. eapply fire_I; eassumption.
+      + cbv beta iota zeta in H. apply get_next_none in G. destruct G as [-> _].
+        apply (once_cont f IH s acc [] false z); [rewrite app_nil_r; exact Hi | exact H].
+  Qed.
+
+  Lemma run_cont : forall f,
+    (forall s acc s' ev, I s acc -> run_loop guard jit c f s = (s', ev) -> I s' (acc ++ ev)) ->
+    forall s2 acc ev1 (r1 : bool) s' ev, I s2 (acc ++ ev1) ->
+    (let '(s3, ev2) :=
+       if r1 then (s2, ev1 ++ [EvRaise])
+       else let '(s3, ev2, _) := do_drain guard jit c s2 in (s3, ev1 ++ ev2) in
+     let '(s4, ev3) := run_loop guard jit c f s3 in (s4, ev2 ++ ev3)) = (s', ev) -> I s' (acc ++ ev).
+  Proof.
+    intros f IH s2 acc ev1 r1 s' ev H2 H.
+    assert (H3 : forall s3 ev2,
+      (if r1 then (s2, ev1 ++ [EvRaise])
+       else let '(s3, ev2, _) := do_drain guard jit c s2 in (s3, ev1 ++ ev2)) = (s3, ev2) -> I s3 (acc ++ ev2)).
+    { intros s3 ev2 E. destruct r1.
+      - inversion E; subst. rewrite app_assoc. apply I_noise; [exact H2 | apply noise1; reflexivity].
+      - destruct (do_drain guard jit c s2) as [[s3' ev2'] r2] eqn:D. inversion E; subst.
+        rewrite app_assoc. eapply do_drain_I; eassumption. }
+    destruct (if r1 then (s2, ev1 ++ [EvRaise])
+              else let '(s3, ev2, _) := do_drain guard jit c s2 in (s3, ev1 ++ ev2)) as [s3 ev2] eqn:E.
+    specialize (H3 _ _ eq_refl).
+    destruct (run_loop guard jit c f s3) as [s4 ev3] eqn:R. inversion H; subst.
+    specialize (IH _ _ _ _ H3 R). rewrite <- app_assoc in IH. exact IH.
   Qed.
 
   Lemma run_loop_I : forall fuel s acc s' ev, I s acc ->
@@ -342,86 +465,43 @@ Section Loops.
     - destruct (quiescent s); inversion H; subst; [rewrite app_nil_r; exact Hi|].
       apply I_noise; [exact Hi | apply noise1; reflexivity].
     - destruct (quiescent s); [inversion H; subst; rewrite app_nil_r; exact Hi|].
-      destruct (get_next_task s) as [[t s1] z] eqn:G.
-      destruct (match t with Some e => process_task jit c s1 e | None => (s1, [], false) end) as [[s2 ev1] r1] eqn:P.
-      pose proof (I_pop _ _ _ _ _ _ _ _ Hi G P) as H2.
-      assert (H3 : forall s3 ev2,
-        (if r1 then (s2, ev1 ++ [EvRaise])
-         else let '(s3, ev2, _) := do_drain guard s2 in (s3, ev1 ++ ev2)) = (s3, ev2) -> I s3 (acc ++ ev2)).
-      { intros s3 ev2 E. destruct r1.
-        - inversion E; subst. rewrite app_assoc. apply I_noise; [exact H2 | apply noise1; reflexivity].
-        - destruct (do_drain guard s2) as [[s3' ev2'] r2] eqn:D.
-          destruct (do_drain_shape _ _ _ _ _ D) as [q [-> Hn]]. inversion E; subst.
-          rewrite app_assoc. apply I_noise; [apply I_dq, H2 | exact Hn]. }
-      destruct (if r1 then (s2, ev1 ++ [EvRaise])
-                else let '(s3, ev2, _) := do_drain guard s2 in (s3, ev1 ++ ev2)) as [s3 ev2] eqn:E.
-      specialize (H3 _ _ eq_refl).
-      destruct (run_loop guard jit c f s3) as [s4 ev3] eqn:R. inversion H; subst.
-      specialize (IH _ _ _ _ H3 R). rewrite <- app_assoc in IH. exact IH.
+      destruct (get_next_task s) as [[t s1] z] eqn:G. destruct t as [e|].
+      + destruct (process_task jit c s1 e) as [[s2 ev1] r1] eqn:P. cbv beta iota zeta in H.
+        eapply (run_cont f IH); [|exact H]. eapply fire_I; eassumption.
+      + cbv beta iota zeta in H. apply get_next_none in G. destruct G as [-> _].
+        apply (run_cont f IH s acc [] false); [rewrite app_nil_r; exact Hi | exact H].
   Qed.
 
-  (* the API operations *)
-  Context (I_suspend : forall s acc i, I s acc -> I (tm_suspend s i) acc).
-  Context (allowed : nat -> bool).
-  Context (I_install : forall s acc i f s', I s acc -> allowed i = true ->
-             (f = ttime s \/ exists t, f = upd (ttime s) i (Some t)) ->
-             tm_install (set_ttime s f) i = Ok s' -> I s' acc).
-  Context (I_now : forall s acc t, I s acc -> I (set_now s t) acc).
-
-  Lemma lift_I : forall s acc i f, I s acc -> allowed i = true -> (f = ttime s \/ exists t, f = upd (ttime s) i (Some t)) ->
-    forall s' ev, lift s (tm_install (set_ttime s f) i) = (s', ev) -> I s' (acc ++ ev).
+  Lemma step_I : forall s acc o s' ev, I s acc -> step guard jit c s o = (s', ev) -> I s' (acc ++ ev).
   Proof.
-    intros s acc i f Hi Ha Hf s' ev H. unfold lift in H.
-    destruct (tm_install (set_ttime s f) i) as [s2|e] eqn:T; inversion H; subst.
-    - rewrite app_nil_r. eapply I_install; eassumption.
-    - apply I_noise; [exact Hi | apply noise1; reflexivity].
-  Qed.
-
-  Lemma lift_err_I : forall s acc e s' ev, I s acc -> lift s (Err e) = (s', ev) -> I s' (acc ++ ev).
-  Proof. intros s acc e s' ev Hi H. inversion H; subst. apply I_noise; [exact Hi | apply noise1; reflexivity]. Qed.
-
-  Definition op_allowed (o : op) : bool :=
-    match o with
-    | Install i _ | InstallAfter i _ | Reinstall i | Resume i => allowed i
-    | _ => true
-    end.
-
-  Lemma step_I : forall s acc o s' ev, I s acc -> op_allowed o = true ->
-    step guard jit c s o = (s', ev) -> I s' (acc ++ ev).
-  Proof.
-    intros s acc o s' ev Hi Ha H. destruct o; cbn [step] in H; cbn [op_allowed] in Ha.
-    - unfold do_install_when in H. destruct (t_kind (cfg_get c i)); [|eapply lift_err_I; eassumption].
-      eapply lift_I; [exact Hi | exact Ha | right; eexists; reflexivity | exact H].
-    - unfold do_install_when in H. destruct (t_kind (cfg_get c i)); [|eapply lift_err_I; eassumption].
-      eapply lift_I; [exact Hi | exact Ha | right; eexists; reflexivity | exact H].
-    - unfold do_reinstall in H. destruct (t_kind (cfg_get c i)) as [|iv off].
-      + destruct (ttime s i); [|eapply lift_err_I; eassumption].
-        rewrite <- (set_ttime_id s) in H at 2. eapply lift_I; [exact Hi | exact Ha | left; reflexivity | exact H].
-      + unfold rec_install in H. destruct (iv <=? 0); [eapply lift_err_I; eassumption|].
-        eapply lift_I; [exact Hi | exact Ha | right; eexists; reflexivity | exact H].
-    - inversion H; subst. rewrite app_nil_r. apply I_suspend, Hi.
-    - rewrite <- (set_ttime_id s) in H at 2. eapply lift_I; [exact Hi | exact Ha | left; reflexivity | exact H].
+    assert (Hl : forall s acc a s' ev, I s acc -> lift s (do_act jit c s a) = (s', ev) -> I s' (acc ++ ev)).
+    { intros s acc a s' ev Hi H. unfold lift in H. destruct (do_act jit c s a) as [[s2 ev2]|e] eqn:A.
+      - inversion H; subst. eapply do_act_I; eassumption.
+      - inversion H; subst. apply I_noise; [exact Hi | apply noise1; reflexivity]. }
+    intros s acc o s' ev Hi H. destruct o; cbn [step] in H; try (eapply Hl; eassumption).
     - inversion H; subst. rewrite app_nil_r. apply I_now, Hi.
     - destruct (heap s); inversion H; subst; rewrite app_nil_r; [exact Hi | apply I_now, Hi].
     - destruct (get_next_task s) as [[t s1] z] eqn:G. destruct t as [e|].
       + destruct (process_task jit c s1 e) as [[s2 ev1] r] eqn:P. inversion H; subst.
-        rewrite app_assoc. apply I_noise; [eapply I_fire; eassumption|].
-        destruct r; [apply noise1; reflexivity | intros x []].
+        change (I s' (acc ++ pop_events s e s1 ++ ev1 ++ (if r then [EvRaise] else []))).
+        replace (acc ++ pop_events s e s1 ++ ev1 ++ (if r then [EvRaise] else []))
+          with ((acc ++ pop_events s e s1 ++ ev1) ++ (if r then [EvRaise] else []))
+          by (rewrite <- !app_assoc; reflexivity).
+        apply I_noise; [eapply fire_I; eassumption|].
+        destruct r; [apply noise1; reflexivity | apply noise_nil].
       + apply get_next_none in G. destruct G as [-> _]. inversion H; subst. rewrite app_nil_r. exact Hi.
     - inversion H; subst. rewrite app_nil_r. apply I_dq, Hi.
     - eapply run_once_loop_I; eassumption.
     - eapply run_loop_I; eassumption.
   Qed.
 
-  Lemma run_ops_I : forall ops s acc s' ev, I s acc -> forallb op_allowed ops = true ->
-    run_ops guard jit c s ops = (s', ev) -> I s' (acc ++ ev).
+  Lemma run_ops_I : forall ops s acc s' ev, I s acc -> run_ops guard jit c s ops = (s', ev) -> I s' (acc ++ ev).
   Proof.
-    induction ops as [|o ops IH]; intros s acc s' ev Hi Ha H; cbn [run_ops] in H.
+    induction ops as [|o ops IH]; intros s acc s' ev Hi H; cbn [run_ops] in H.
     - inversion H; subst. rewrite app_nil_r. exact Hi.
-    - cbn [forallb] in Ha. apply andb_prop in Ha. destruct Ha as [Ha1 Ha2].
-      destruct (step guard jit c s o) as [s1 ev1] eqn:S.
+    - destruct (step guard jit c s o) as [s1 ev1] eqn:S.
       destruct (run_ops guard jit c s1 ops) as [s2 ev2] eqn:R. inversion H; subst.
-      pose proof (step_I _ _ _ _ _ Hi Ha1 S) as H1. specialize (IH _ _ _ _ H1 Ha2 R).
+      pose proof (step_I _ _ _ _ _ Hi S) as H1. specialize (IH _ _ _ _ H1 R).
       rewrite <- app_assoc in IH. exact IH.
   Qed.
 End Loops.
